@@ -113,11 +113,8 @@ pub fn replay(prop: &'static str, path: &str) -> i32 {
             let base_seed = sc["base_seed"].as_u64().unwrap_or(0);
             let p = sc["for_property"].as_str().unwrap_or(prop).to_string();
             let cfg = e2e_cfg(&p, idx, base_seed);
-            if cfg.otel {
-                with_subscriber(SubMode::Otel, || e2e::run(&cfg))
-            } else {
-                e2e::run(&cfg)
-            }
+            let mode = [SubMode::None, SubMode::Fmt, SubMode::Otel, SubMode::OtelOff][cfg.sub as usize % 4];
+            with_subscriber(mode, || e2e::run(&cfg))
         }
         _ => {
             println!("unknown family");
@@ -626,6 +623,13 @@ fn family_prop(ctx: &RunCtx, fams: &[&str]) -> i32 {
     let e2e = fams.contains(&"e2e");
     let k = fams.len() as u64;
     let agg = run_parallel(prop, n, &ctx.known, |i| {
+        if prop == "C07" && (1..=48).contains(&i) {
+            // a retried call keeps the caller's deadline on every attempt (Retry stub)
+            let k = i - 1;
+            let policy: Vec<bool> = (0..(k % 4)).map(|b| (k >> b) & 1 == 0).collect();
+            let results: Vec<Result<u64, String>> = (0..=policy.len()).map(|j| if (j + k as usize) % 2 == 0 { Err(format!("e{j}")) } else { Ok(j as u64) }).collect();
+            return misc::c20_retry(&policy, &results, (k / 12) as u8, json!({"family": "S-stubs", "case": "retry deadline", "index": i}));
+        }
         if prop == "C07" && i == 0 {
             // the documented 10-second default for a request that omits its deadline
             return crate::codec::c15_kinds_and_optionals();
@@ -640,7 +644,14 @@ fn family_prop(ctx: &RunCtx, fams: &[&str]) -> i32 {
         match fam {
             "client" => {
                 let cfg = client_cfg(prop, idx, seed, thorough);
-                let mut o = sclient::run(&cfg);
+                // C18: a logging-only subscriber must not change what is transmitted
+                let mut o = if prop == "C18" && idx % 3 == 1 {
+                    let mut o = with_subscriber(SubMode::Fmt, || sclient::run(&cfg));
+                    o.cell("C18.fmt-subscriber");
+                    o
+                } else {
+                    sclient::run(&cfg)
+                };
                 tag(&mut o, idx, seed, prop, &tier);
                 o
             }
@@ -652,7 +663,8 @@ fn family_prop(ctx: &RunCtx, fams: &[&str]) -> i32 {
             }
             _ => {
                 let cfg = e2e_cfg(prop, idx, seed);
-                let mut o = if cfg.otel { with_subscriber(SubMode::Otel, || e2e::run(&cfg)) } else { e2e::run(&cfg) };
+                let mode = [SubMode::None, SubMode::Fmt, SubMode::Otel, SubMode::OtelOff][cfg.sub as usize % 4];
+                let mut o = with_subscriber(mode, || e2e::run(&cfg));
                 tag(&mut o, idx, seed, prop, &tier);
                 o
             }
@@ -1206,7 +1218,7 @@ fn c20(ctx: &RunCtx) -> i32 {
         RrSeq(usize, usize),
         RrConc(usize, usize, usize),
         Ch(usize, usize, usize),
-        Retry(Vec<bool>, Vec<Result<u64, String>>),
+        Retry(Vec<bool>, Vec<Result<u64, String>>, u8),
     }
     let mut cases: Vec<Case> = vec![];
     for nb in 1..=17usize {
@@ -1261,7 +1273,9 @@ fn c20(ctx: &RunCtx) -> i32 {
                         }
                     })
                     .collect();
-                cases.push(Case::Retry(policy.clone(), results));
+                for dc in 0..4u8 {
+                    cases.push(Case::Retry(policy.clone(), results.clone(), dc));
+                }
             }
         }
     }
@@ -1289,7 +1303,7 @@ fn c20(ctx: &RunCtx) -> i32 {
                 r.shuffle(&mut reqs);
                 misc::c20_consistent_hash(*nb, kind, name, &reqs, json!({"family": "S-stubs", "case": "consistent-hash", "backends": nb, "hasher": name, "set": set, "base_seed": seed}))
             }
-            Case::Retry(p, res) => misc::c20_retry(p, res, json!({"family": "S-stubs", "case": "retry", "policy": format!("{:?}", p), "results": format!("{:?}", res)})),
+            Case::Retry(p, res, dc) => misc::c20_retry(p, res, *dc, json!({"family": "S-stubs", "case": "retry", "policy": format!("{:?}", p), "results": format!("{:?}", res), "caller_deadline_class": dc})),
         }
     });
     let mut agg = agg;
@@ -1303,7 +1317,7 @@ fn c20(ctx: &RunCtx) -> i32 {
         agg,
         extra,
         assumptions: vec!["counter wrap-around (2^64 calls) is out of reach of any execution".into()],
-        required_cells: vec!["C20.rr.seq.backends1".into(), "C20.rr.seq.backends17".into(), "C20.rr.conc.threads16".into(), "C20.ch.hasher.const-u64max".into(), "C20.ch.hasher.RandomState".into(), "C20.retry.attempts1".into(), "C20.retry.attempts7".into()],
+        required_cells: vec!["C20.rr.seq.backends1".into(), "C20.rr.seq.backends17".into(), "C20.rr.conc.threads16".into(), "C20.ch.hasher.const-u64max".into(), "C20.ch.hasher.RandomState".into(), "C20.retry.attempts1".into(), "C20.retry.attempts7".into(), "C20.retry.deadline-class0".into()],
         exhaustive: None,
     };
     finish(ctx, rep)
@@ -1316,8 +1330,11 @@ pub fn e2e_cfg(prop: &str, i: u64, base_seed: u64) -> ECfg {
     let seed = mix(base_seed, i.wrapping_mul(0xE2E1) ^ 0x77);
     let mut c = ECfg::random(seed);
     let mut r = Rng::new(seed ^ 0xD1CE);
-    if prop == "C18" {
-        c.otel = i % 2 == 1;
+    if prop == "C18" || prop == "C07" {
+        // subscriber modes: none, logging-only, OpenTelemetry with the always-on / always-off sampler
+        c.sub = (i % 4) as u8;
+        c.otel = c.sub >= 2;
+        c.nested_with_current = c.otel && (i / 4) % 2 == 0;
     }
     // directed shapes: chains of every depth over every transport kind
     if i < 60 || i % 25 == 0 {
@@ -1363,8 +1380,8 @@ pub fn e2e_cfg(prop: &str, i: u64, base_seed: u64) -> ECfg {
 fn e2e_required_cells(prop: &str) -> Vec<String> {
     let v: Vec<&str> = match prop {
         "C04" => vec!["C04.chain.head-abandoned", "C04.chain.cascade-depth2", "C04.chain.cascade-depth3"],
-        "C07" => vec!["C15.request-without-deadline", "C07.hop1.serde", "C07.hop2.serde", "C07.hop3.serde", "C07.hop1.in-memory", "C07.hop3.in-memory", "C07.expired-on-send", "C07.real-transit-delay"],
-        "C18" => vec!["C18.cancel-observed", "e2e.depth3", "C18.otel-subscriber"],
+        "C07" => vec!["C07.current-context.sub2", "C07.current-context.sub3", "C15.request-without-deadline", "C07.hop1.serde", "C07.hop2.serde", "C07.hop3.serde", "C07.hop1.in-memory", "C07.hop3.in-memory", "C07.expired-on-send", "C07.real-transit-delay"],
+        "C18" => vec!["C18.cancel-observed", "e2e.depth3", "C18.otel-subscriber", "e2e.subscriber-mode3"],
         _ => vec![],
     };
     v.into_iter().map(String::from).collect()
@@ -1512,6 +1529,7 @@ enum SubMode {
     None,
     Fmt,
     Otel,
+    OtelOff,
 }
 /// A dispatcher that is interested in every span stays registered for the whole process, so that
 /// tracing's per-callsite interest cache can never be left at "never" while scoped subscribers of
@@ -1535,6 +1553,15 @@ fn with_subscriber<T>(m: SubMode, f: impl FnOnce() -> T) -> T {
         SubMode::None => f(),
         SubMode::Fmt => {
             let sub = tracing_subscriber::fmt().with_writer(std::io::sink).with_max_level(tracing::Level::TRACE).finish();
+            tracing::subscriber::with_default(sub, f)
+        }
+        SubMode::OtelOff => {
+            use opentelemetry::trace::TracerProvider as _;
+            let provider = opentelemetry_sdk::trace::TracerProvider::builder()
+                .with_config(opentelemetry_sdk::trace::Config::default().with_sampler(opentelemetry_sdk::trace::Sampler::AlwaysOff))
+                .build();
+            let tracer = provider.tracer("tarpc-verif-off");
+            let sub = tracing_subscriber::registry().with(tracing_opentelemetry::layer().with_tracer(tracer));
             tracing::subscriber::with_default(sub, f)
         }
         SubMode::Otel => {
@@ -1612,11 +1639,18 @@ fn c16(ctx: &RunCtx) -> i32 {
         .env("VERIF_SEED", format!("{}", ctx.seed as i64))
         .env("VERIF_DIR", &ctx.verif_dir)
         .output();
-    let mut agg = run_parallel(ctx.prop, n + 84, &ctx.known, |i| {
+    let kind_codes: Vec<u32> = (0..=64u32).chain([255, 256, 65_535, 65_536, i32::MAX as u32, 1 << 31, u32::MAX - 1, u32::MAX]).collect();
+    let nk = 2 * kind_codes.len() as u64;
+    let kc = &kind_codes;
+    let mut agg = run_parallel(ctx.prop, n + 84 + nk, &ctx.known, |i| {
         if i < 84 {
             return codec::c16_wire_deadline_case((i / 2) as usize, i % 2 == 0);
         }
-        let j = i - 84;
+        if i < 84 + nk {
+            let k = i - 84;
+            return codec::c16_kind_code_case(kc[(k / 2) as usize], k % 2 == 0);
+        }
+        let j = i - 84 - nk;
         let mode = [SubMode::None, SubMode::Fmt, SubMode::Otel][(j % 3) as usize];
         let mname = ["no-subscriber", "fmt-subscriber", "otel-subscriber"][(j % 3) as usize];
         let mut o = if j % 600 == 7 {
@@ -1712,6 +1746,7 @@ fn c16(ctx: &RunCtx) -> i32 {
             "C16.fmt-subscriber".into(),
             "C16.otel-subscriber".into(),
             "C16.wire-deadline.accepted".into(),
+            "C16.kind-code.served".into(),
             "C16.bytes.json.server".into(),
             "C16.bytes.bincode.server".into(),
             "C16.bytes.json.client".into(),
